@@ -206,7 +206,9 @@ PROPERTIES = {
                    # the naming scheme that links a described field to its hidden slot and tells the descriptor both names
                    'field:Field._describe_yourself',
                    # the hooks a class runs: the bound methods of the descriptors of its own fields, one per field, in table order
-                   'packet_builder:PacketClassBuilder.collect_sync_methods_from_field_descriptors'],
+                   'packet_builder:PacketClassBuilder.collect_sync_methods_from_field_descriptors',
+                   # every packet runs its own hooks in its own pack_impl / unpack_impl (so nested packets do too): hook-count clauses
+                   'packet:Packet.pack_impl', 'packet:Packet.unpack_impl'],
         lemmas=['C17.visible_depends_only_on_flag_and_hidden'],
         trusted_base=_COMMON_TRUST + ["python's descriptor protocol dispatches attribute get/set/delete of a described field to Auto.__get__/__set__/__delete__ (role:DESC.__set__)"],
         assumptions=['the computing function (Auto.func) is pure and does not read the hidden slot',
